@@ -245,11 +245,15 @@ pub fn run_c18(seed: u64, thorough: bool) -> Vec<Value> {
             ("last character removed".into(), printed[..printed.len().saturating_sub(1)].to_string()),
             ("1024 characters".into(), "QUJD".repeat(256)),
             ("padding only".into(), "====".into()),
+            ("44 characters spelling 31 bytes".into(), format!("{}==", "A".repeat(42))),
+            ("43 characters spelling 32 bytes (no padding)".into(), "A".repeat(43)),
         ];
         for (name, text) in cases {
             let r = catch_unwind(AssertUnwindSafe(|| text.parse::<ChannelId>().map(|p| p.to_bytes() == id.to_bytes())));
             let o = match r { Ok(Ok(true)) => "same".to_string(), Ok(Ok(false)) => "other".into(), Ok(Err(_)) => "err".into(), Err(e) => format!("panic:{}", panic_message(e)) };
-            out.push(json!({"ev": "cidparse", "case": name, "out": o}));
+            // independent reading of the text: how many bytes does it spell (standard base64, padding optional)?
+            let payload = base64::decode_config(text.trim_end_matches('='), base64::STANDARD_NO_PAD).map(|b| b.len() as i64).unwrap_or(-1);
+            out.push(json!({"ev": "cidparse", "case": name, "out": o, "payload_len": payload}));
         }
     }
     out.push(json!({"ev": "cid", "input": "print/parse", "variant": "round trip", "changed": parsed.map(|p| p.to_bytes() != id.to_bytes()).unwrap_or(true), "expect_changed": false}));
@@ -289,10 +293,13 @@ fn key_facts<const N: usize>(kp: &KeyPair<N>, rng: &mut rand::rngs::StdRng) -> V
 fn keygen_n<const N: usize>(seed: u64, thorough: bool, out: &mut Vec<Value>) {
     let mut rng = seeded(seed, 95 + N as u64);
     let base = { let mut s = Scripted::new(vec![], seed); let _ = KeyPair::<N>::new(&mut s); s.scalar_draws() };
-    for width in 1..=(if thorough { 3 } else { 2 }) {
+    // two kinds of draws that reduce to the zero scalar: all-zero bytes, and the bytes of the group order q (non-zero bytes!)
+    const Q_LE: [u8; 32] = [0x01, 0x00, 0x00, 0x00, 0xff, 0xff, 0xff, 0xff, 0xfe, 0x5b, 0xfe, 0xff, 0x02, 0xa4, 0xbd, 0x53, 0x05, 0xd8, 0xa1, 0x09, 0x08, 0xd8, 0x39, 0x33, 0x48, 0x7d, 0x9d, 0x29, 0x53, 0xa7, 0xed, 0x73];
+    for (width, zero_draw) in [(1usize, Draw::Zero), (2, Draw::Zero), (3, Draw::Zero), (1, Draw::Scalar(Q_LE)), (2, Draw::Scalar(Q_LE))] {
+        if width == 3 && !thorough { continue; }
         for off in 0..(base + 1) {
             let mut script = vec![Draw::Generic; off];
-            script.extend(vec![Draw::Zero; width]);
+            script.extend(vec![zero_draw; width]);
             let mut s = Scripted::new(script, seed + off as u64);
             let r = catch_unwind(AssertUnwindSafe(|| KeyPair::<N>::new(&mut s)));
             match r {
@@ -301,6 +308,28 @@ fn keygen_n<const N: usize>(seed: u64, thorough: bool, out: &mut Vec<Value>) {
                 Err(e) => out.push(json!({"ev": "keygen", "what": format!("KeyPair<{}>", N), "offset": off, "width": width, "out": format!("panic:{}", panic_message(e)), "facts": {}, "extra_draws": 0, "zero_draws_in_range": 0})),
             }
         }
+    }
+    // Pedersen parameters: no generator has a discrete logarithm that was DRAWN - relative to the group's standard
+    // generator or to another generator of the set (whoever can replay the set-up randomness could then open commitments
+    // at will).  Every 64-byte draw of the generation is reduced as Scalar::random does and tried.
+    {
+        let mut s = Scripted::new(vec![], seed ^ 0x77);
+        s.scalar_only = false;
+        let p1 = PedersenParameters::<bls12_381::G1Projective, N>::new(&mut s);
+        let t1 = Tree::of(&p1);
+        let gens: Vec<bls12_381::G1Projective> = t1.atoms().filter_map(|l| indep::g1(&t1.bytes[l.off..l.off + l.len])).map(bls12_381::G1Projective::from).collect();
+        let mut clean = true;
+        for d in &s.drawn {
+            let k = Scalar::from_bytes_wide(d);
+            if k == Scalar::zero() { continue; }
+            let std = bls12_381::G1Projective::generator() * k;
+            for (a, ga) in gens.iter().enumerate() {
+                if *ga == std { clean = false; }
+                for (b, gb) in gens.iter().enumerate() { if a != b && *ga == *gb * k { clean = false; } }
+            }
+        }
+        out.push(json!({"ev": "keygen", "what": format!("PedersenParameters<{}>", N), "offset": 0, "width": 0, "out": "ok",
+                        "facts": {"no_generator_has_a_drawn_discrete_log": clean}, "extra_draws": 0, "zero_draws_in_range": 0}));
     }
     // Pedersen parameters (both groups): only non-identity generators, pass the decoder
     for (i, width) in [(0usize, 1usize), (1, 2), (0, 4)] {
